@@ -23,12 +23,21 @@ META = dict(
     category="proof",
     text=("ValueAxis/TimeAxis/FrequencyAxis constructors, TimeAxis.get_FrequencyAxis and FrequencyAxis.get_TimeAxis are "
           "proved against contracts on the real code for every start, step > 0 and length >= 2, both axis types, even and "
-          "odd lengths: the derived axis has the closed-form start / step / length / conjugate-origin, and the two "
-          "round trips return the original axis exactly (real arithmetic)."),
-    note=("real numbers for floats; numpy.linspace, numpy.fft.fftfreq, fftshift, ifftshift, fft, ifft modelled by their "
-          "documented cell-wise definitions; exp(2 pi i k/n) uninterpreted with periodicity and multiplicativity."),
-    technique="VCs from the real AST with cell-wise models of numpy.fft index functions, z3 (non-linear real arithmetic); "
-              "round-trip lemmas over the postconditions",
+          "odd lengths: the derived axis has the closed-form start / step / length / conjugate origin, and both round "
+          "trips (t->w->t, w->t->w; the real code of both conversions executed in sequence) return the original axis "
+          "exactly. DFunction.get_Fourier_transform and get_inverse_Fourier_transform are proved, for every length and "
+          "all complex data, to return the direct Fourier sum on the conjugate axis: complete time and frequency axes "
+          "(centred sum, exponent sign +/-), upper-half time axes (sum over the Hermitian extension f(-t) = conj f(t), "
+          "loop invariant on the extension buffer), upper-half frequency axes (non-negative times of the centred inverse "
+          "sum). The re-centring of both indices by the cyclic shifts, the Hermitian extension and the inversion "
+          "(transform then inverse transform returns the original values) are Lean lemmas over the postconditions."),
+    note=("real numbers for floats; numpy.linspace, numpy.fft.fftfreq, fftshift, ifftshift, fft, ifft are modelled by "
+          "their documented cell-wise definitions; W(k, n) = exp(2 pi i k/n) is uninterpreted with periodicity, "
+          "multiplicativity and orthogonality (sum over a period) assumed; exp(i w_k t_n) on the conjugate grids is "
+          "identified with W((k-c)(n-c), N). Windowed transforms, get_Fourier_transform of upper-half frequency "
+          "functions and inverse transforms of time-domain upper-half functions are not under contract."),
+    technique="VCs from the real AST with cell-wise models of numpy.fft, z3 (non-linear real arithmetic); cyclic-shift, "
+              "Hermitian-extension and inversion lemmas for finite Fourier sums in Lean 4",
 )
 
 PI2 = "(2.0*numpy.pi)"
@@ -46,6 +55,10 @@ def internal_units_manager(S):
                                                           "temperature": "2pi/fs", "time": "fs", "length": "int"})
     S.singleton("Manager", m)
     return m
+
+
+def _conj(c):
+    return Cx(c.re, V.arith("-", 0, c.im))
 
 
 def mk_time_axis(S, atype, label="self"):
@@ -200,6 +213,64 @@ def contracts(reg):
                                "forall(k, range(0, N), result.data[k] == Sum(n, range(0, N), y[n]*Wroot(-((n - c)*(k - c)), N))*dw/%s)" % PI2,
                                dict(use=[("dft_centred", {"N": "N", "c": "c", "y": "y", "W": "Warr(N, -1)", "Y": "raw_dft(y, -1)"})]))]))
 
+    # ---- upper-half axes: the function is given for t >= 0 and continued by f(-t) = conj f(t) ---------------------------------------
+    def setup_half(S, which):
+        if which == "time":
+            ax, n = mk_time_axis(S, "upper-half", label="axis")
+        else:
+            ax, n = mk_freq_axis(S, "upper-half", label="axis")
+        y = S.array("y", (n,), "cx")
+        me = S.obj(DF + "DFunction", label="self", axis=ax, data=y, _has_imag=S.bool("has_imag"), _is_empty=False,
+                   _splines_initialized=False)
+        d = dict(self=me, N=n, y=y)
+        if which == "time":
+            d.update(window=None, dt=S.leaves["dt"], M=V.arith("*", 2, n))
+        else:
+            d.update(dw=S.leaves["dw"], c=V.arith("//", n, 2), H=V.arith("//", n, 2))
+        return d
+
+    def hermitian_ext(ex, a, k, l):
+        """the buffer the code builds from y: y on [0,N), 0 at N, conj(y[M-j]) above"""
+        y = a[0]
+        n = y.shape[0]
+        m = V.arith("*", 2, n)
+
+        def cell(idx):
+            j = idx[0]
+            return V.ite(V.compare("<", j, n), Cx.of(y.get([j])),
+                         V.ite(V.compare("==", j, n), Cx(z3.RealVal(0), z3.RealVal(0)),
+                               _conj(Cx.of(y.get([V.arith("-", m, j)])))))
+        return V.lam_array((m,), "cx", cell)
+    T["hermitian_ext"] = Builtin("spec:hermitian_ext", hermitian_ext)
+
+    def raw_half(ex, a, k, l):
+        """fftshift(M*ifft(yy)) as the code composes it"""
+        yy = a[0]
+        m = yy.shape[0]
+        tr = T["numpy.fft.ifft"].fn(ex, [yy], {}, l)
+        tr = V.lam_array((m,), "cx", lambda idx: V.arith("*", m, Cx.of(tr.get(idx))))
+        return T["numpy.fft.fftshift"].fn(ex, [tr], {}, l)
+    T["raw_half"] = Builtin("spec:raw_half", raw_half)
+    WPER2 = "forall((a, q), (ints, ints), Wroot(a + M*q, M) == Wroot(a, M))"
+    reg.add(Contract(DF + "DFunction.get_Fourier_transform#time-upper-half", setup=lambda S: setup_half(S, "time"),
+                     requires=["N >= 1", "dt > 0", WPER2],
+                     ensures=[("on-the-conjugate-axis", "result.axis.length == 2*N and result.axis.step == %s/(2*N*dt)" % PI2),
+                              ("direct-fourier-sum-over-the-hermitian-extension",
+                               "forall(k, range(0, M), result.data[k] == (Sum(n, range(0, N), y[n]*Wroot(n*(k - N), M)) "
+                               "+ Sum(n, range(1, N), conj(y[n])*Wroot((0 - n)*(k - N), M)))*dt)",
+                               dict(use=[("dft_hermitian", {"N": "N", "M": "M", "y": "y", "yy": "local_yy",
+                                                            "W": "Warr(M)", "Y": "raw_half(local_yy)"})]))],
+                     expose_locals=["yy"],
+                     loops={0: dict(inv=["forall(j, range(M - _i, M), yy[j] == conj(y[M - j]))",
+                                         "forall(j, range(0, M - _i), yy[j] == entry(yy)[j])"], modifies=["yy"])}))
+    WPERMH = "forall((a, q), (ints, ints), Wroot(-(a + N*q), N) == Wroot(-a, N))"
+    reg.add(Contract(DF + "DFunction.get_inverse_Fourier_transform#frequency-upper-half", setup=lambda S: setup_half(S, "freq"),
+                     requires=["N >= 2", "N % 2 == 0", "dw > 0", WPERMH],
+                     ensures=[("on-the-conjugate-axis", "result.axis.length == H and result.axis.step == %s/(N*dw)" % PI2),
+                              ("non-negative-times-of-the-centred-inverse-sum",
+                               "forall(k, range(H, N), result.data[k - H] == Sum(n, range(0, N), y[n]*Wroot(-((n - c)*(k - c)), N))*dw/%s)" % PI2,
+                               dict(use=[("dft_centred", {"N": "N", "c": "c", "y": "y", "W": "Warr(N, -1)", "Y": "raw_dft(y, -1)"})]))]))
+
 
 def _call(S, q, obj):
     fi = S.ex.repo.function(q)
@@ -240,6 +311,33 @@ def lemma_roundtrips(ctx):
     return obs
 
 
+def lemma_transform_roundtrip(ctx):
+    """postcondition of get_Fourier_transform (complete time axis) followed by the postcondition of
+    get_inverse_Fourier_transform (complete frequency axis with step 2 pi/(N dt)) returns the original values:
+    hypotheses of the Lean lemma dft_inversion"""
+    def setup(S):
+        n = S.int("N")
+        d = dict(N=n, c=V.arith("//", n, 2), dt=S.real("dt"), dw=S.real("dw"), y=S.array("y", (n,), "cx"),
+                 F=S.array("F", (n,), "cx"), g=S.array("g", (n,), "cx"))
+        d["Fs"] = V.lam_array((n,), "cx", lambda idx: V.arith("/", Cx.of(d["F"].get(idx)), d["dt"]))
+        d["gs"] = V.lam_array((n,), "cx", lambda idx: V.arith("/", V.arith("*", Cx.of(d["g"].get(idx)), V.arith("*", 2, V.const_pi())),
+                                                                 V.arith("*", d["dw"], d["dt"])))
+        return d
+    post = ["N >= 2", "dt > 0", "dw == %s/(N*dt)" % PI2,
+            # trusted facts about W(k, N) = exp(2 pi i k / N)
+            "forall((a, b), (ints, ints), Wroot(a + b, N) == Wroot(a, N)*Wroot(b, N))",
+            "forall(d, ints, Sum(k, range(0, N), Wroot((k - c)*d, N)) == ite(d % N == 0, N, 0))",
+            # DFunction.get_Fourier_transform#time-complete : direct-fourier-sum
+            "forall(k, range(0, N), F[k] == Sum(n, range(0, N), y[n]*Wroot((n - c)*(k - c), N))*dt)",
+            # DFunction.get_inverse_Fourier_transform#frequency-complete : direct-fourier-sum-with-the-opposite-sign
+            "forall(k, range(0, N), g[k] == Sum(n, range(0, N), F[n]*Wroot(-((n - c)*(k - c)), N))*dw/%s)" % PI2]
+    goals = [("original-values-recovered", "forall(m, range(0, N), g[m] == y[m])")]
+    return clause_lemma(ctx, "transform-then-inverse-transform", setup, post, goals,
+                        where="props/C13.py (over the postconditions of the two transforms)",
+                        use=[("dft_inversion", {"N": "N", "c": "c", "s1": "dt", "s2": "dw/%s" % PI2, "y": "y", "W": "Warr(N)",
+                                                "F": "F", "g": "g"})])
+
+
 def plan(ctx):
     p = Plan("C13")
     contracts(ctx.registry)
@@ -248,8 +346,18 @@ def plan(ctx):
                    VA + "ValueAxis.__init__", TM + "TimeAxis.__init__", FQ + "FrequencyAxis.__init__",
                    DF + "DFunction.get_Fourier_transform#time-complete", DF + "DFunction.get_Fourier_transform#frequency-complete",
                    DF + "DFunction.get_inverse_Fourier_transform#time-complete",
-                   DF + "DFunction.get_inverse_Fourier_transform#frequency-complete"]
-    p.lemmas = [lemma_roundtrips]
+                   DF + "DFunction.get_inverse_Fourier_transform#frequency-complete",
+                   DF + "DFunction.get_Fourier_transform#time-upper-half",
+                   DF + "DFunction.get_inverse_Fourier_transform#frequency-upper-half"]
+    p.lemmas = [lemma_roundtrips, lemma_transform_roundtrip]
     p.extra_axioms = list(V.pi_axioms())
+    p.trusted = ["numpy.fft.fft / ifft compute sum_j x[j] exp(-/+ 2 pi i j m / n) (/n); fftshift / ifftshift are roll(x, n//2) / "
+                 "roll(x, -(n//2)); fftfreq(n, d)[i] = (i if i <= (n-1)//2 else i-n)/(n d); numpy.linspace is the linear grid",
+                 "W(k, n) = exp(2 pi i k / n): W(a + n q) = W(a), W(a + b) = W(a) W(b), sum over a period of W((k-c) d) = n if n | d else 0",
+                 "3.14159265 < pi < 3.14159266 is all that is used of pi"]
+    p.not_decided = ["windowed transforms (window argument)", "Fourier transform of a function on an upper-half frequency axis",
+                     "inverse transform applied to a time-domain upper-half function (factor conventions)",
+                     "round trip transform / inverse transform on upper-half axes (needs the Hermitian symmetry of the "
+                     "spectrum)", "floating-point rounding (\"up to rounding\" is exact equality over the reals here)"]
     p.oracles = ["native/oracle_C13.py"]
     return p
